@@ -197,13 +197,24 @@ def e_sur_gen(p):
     except Exception:   # noqa
         emb = None
     if emb is not None and len(emb):
-        try:
-            s.embedding = emb[0]
-            s.twins(threshold=p.get("thr", 1.0), min_dist=p.get("md", 1))
-            s.twin_surrogates(p.get("dim", 2), p.get("tau", 1),
-                              p.get("thr", 1.0), min_dist=p.get("md", 1))
-        except Exception:   # noqa
-            pass
+        # (the embedding attribute is the 3-D array [index, time, dimension];
+        # an earlier version of this entry assigned emb[0], on which twins()
+        # raises before any kernel is reached - tools/kernel_reach.py)
+        for f in (
+                lambda: Surrogates.recurrence_plot(
+                    emb[0], p.get("thr", 1.0), silence_level=3),
+                lambda: setattr(s, "embedding", emb),
+                lambda: s.twins(threshold=p.get("thr", 1.0),
+                                min_dist=p.get("md", 1)),
+                lambda: s.twin_surrogates(p.get("dim", 2), p.get("tau", 1),
+                                          p.get("thr", 1.0),
+                                          min_dist=p.get("md", 1)),
+                lambda: s.twin_surrogates(p.get("dim", 2), p.get("tau", 1),
+                                          100.0, min_dist=0)):
+            try:
+                f()
+            except Exception:   # noqa
+                pass
     call_all(s, ["normalize_original_data"])
 
 
